@@ -60,7 +60,7 @@ class RemoteStore(Store):
         self.on_metadata_changed(key)
 
     def store_metadata(self, key, metadata):
-        metadata = self.finalize_metadata(metadata, key=key, is_dir=False, data=data)
+        metadata = self.finalize_metadata(metadata, key=key, is_dir=False)
         self.post_json(self.concat_api("store/metadata", key), metadata)
         self.on_metadata_changed(key)
 
